@@ -12,7 +12,7 @@ func init() { register("C14", "exploration", c14) }
 
 type c14Case struct {
 	Shape shape  `json:"shape"`
-	Lens  [5]int `json:"lens"` // counter, challenge, password, session, timestamp; -1 = nil
+	Lens  [5]int `json:"lens"`  // counter, challenge, password, session, timestamp; -1 = nil
 	Entry string `json:"entry"` // "input.Validate", "generate", "validate", "suite.Validate", "newsuite"
 }
 
